@@ -47,9 +47,9 @@ var extSummaries = map[string]extSum{
 	"bytes.NewBuffer":             {ret: "fresh", retHolds: []int{0}, why: "the Buffer takes ownership of buf"},
 	"bytes.NewBufferString":       pureFresh,
 	"bytes.NewReader":             {ret: "fresh", retHolds: []int{0}, why: "the Reader reads from b; it never writes it"},
-	"(*bytes.Buffer).Write":       {writes: []int{0}, why: "appends a copy of p to the buffer"},
-	"(*bytes.Buffer).WriteString": {writes: []int{0}, why: "appends a copy"},
-	"(*bytes.Buffer).WriteByte":   {writes: []int{0}, why: "appends"},
+	"(*bytes.Buffer).Write":       {writes: []int{0}, fills: []int{0}, why: "appends a copy of p to the buffer (growing its own internal array)"},
+	"(*bytes.Buffer).WriteString": {writes: []int{0}, fills: []int{0}, why: "appends a copy"},
+	"(*bytes.Buffer).WriteByte":   {writes: []int{0}, fills: []int{0}, why: "appends"},
 	"(*bytes.Buffer).Bytes":       {ret: "contents:0", why: "returns the unread portion of the internal buffer"},
 	"(*bytes.Buffer).String":      pureFresh,
 	"(*bytes.Buffer).Len":         pureNone,
@@ -134,7 +134,7 @@ var extSummaries = map[string]extSum{
 	"(*sync.Pool).Put":        {writes: []int{0}, sync: true, why: "pool"},
 
 	// interfaces declared outside the analysed set
-	"iface io.Writer.Write":                                       {writes: []int{0}, why: "consumes a copy of p (io.Writer contract: must not modify or retain p)"},
+	"iface io.Writer.Write":                                       {writes: []int{0}, fills: []int{0}, why: "consumes a copy of p into memory of its own (io.Writer contract: must not modify or retain p)"},
 	"iface io.Reader.Read":                                        {writes: []int{0, 1}, why: "fills p; advances the reader"},
 	"iface github.com/golang/protobuf/proto.Message.Reset":        {writes: []int{0}, why: "resets the message"},
 	"iface github.com/golang/protobuf/proto.Message.String":       pureFresh,
